@@ -597,6 +597,21 @@ def r8_released_decision(chk: Check):
     from .c03 import r14_pretasks_cross_tasks
 
     r14_pretasks_cross_tasks(chk)
+    # identifier before sealing = identifier after: the default test must not see generated values (= C02.R10)
+    from .c02 import r10_default_by_signature
+
+    r10_default_by_signature(chk)
+    # equal pre-tasks count once, whether they are one object or two (content, not object identity)
+    fi = chk.tree.func("core.objects", "ConfigInformation.identifiers")
+    loops = [x for x in body_walk(fi.node) if isinstance(x, ast.For) and "sorted(" in src(x.iter)]
+    gi = CFG(fi.node)
+    rdi = ReachingDefs(gi)
+    okset = False
+    for n in gi.live:
+        if n.kind == "for" and "sorted(" in rdi.canon(n.ast.iter, n):
+            okset = okset or "sorted(set(" in rdi.canon(n.ast.iter, n).replace(" ", "") or "sorted({" in rdi.canon(n.ast.iter, n)
+    chk.require(okset, chk.fkey(fi, "pre-task identifiers hashed as a set"), "the pre-task identifiers are hashed as a sorted list: the same graph built with one shared pre-task object or with two equal "
+                "pre-task objects gets two different identifiers", chk.loc(fi.module, fi.node))
 
 
 RULES = [
